@@ -19,6 +19,12 @@ from vc.engine import SV, SymRaise, Unsupported, PathEnd
 from vc.pyfe import Interp, Obj, OutLog, Builtin, SymDict
 from contracts.interp_sim import METHODS, PHASE_NO, PHASES_OF, SI, _proved, _p, _map
 from contracts.publish import PatternIH, tracker_of
+from vc.pyfe import LoopContract, _MapView
+from vc.speclemmas import LIB as _LIB0, STREAM, PUBL, MAPL, pushall, msuffix
+LIBX = dict(_LIB0)
+LIBX.update(STREAM)
+LIBX.update(PUBL)
+LIBX.update({k: v for k, v in MAPL.items() if v is not None})
 
 TFILE = 'generation/src/proof_generation/interpreter_transformer.py'
 OFILE = 'generation/src/proof_generation/optimizing_interpreters.py'
@@ -198,6 +204,56 @@ def good_thunk(repo, ctx, conc, tag):
     return Obj(tcls, {'_expr': Builtin('good_thunk_' + tag, run), 'conc': conc})
 
 
+class ItemsLoop(LoopContract):
+    """for idn, p in delta.items(): delta[idn] = interpreter.pattern(p)        (ProofExp.dynamic_inst)
+    invariant:  the remaining items r are a suffix of the original map m;  delta has the same expansion as m (values are replaced by equal patterns);
+                pushall(expand*(r), ex_stack(stack now)) == pushall(expand*(m), ex_stack(stack at entry))        (remaining-work form)"""
+    def __init__(self, tr, m):
+        self.tr, self.m = tr, m
+
+    def entry(self, interp, ctx, env, it):
+        if not (isinstance(it, _MapView) and it.which == 'items' and it.m.t.eq(self.m)):
+            raise Unsupported('the loop is not `for .. in delta.items()`: the loop contract does not apply')
+        self.X0 = ex_stack(interp.plist_of(self.tr.attrs['stack']))
+        self.M = expandmap(self.m)
+        self.G = pushall(self.M, self.X0)
+        self.mem0 = ex_mem(interp.plist_of(self.tr.attrs['memory']))
+
+    def arbitrary_iteration(self, interp, ctx, env, it):
+        r, st, dc = ctx.fresh('pmap', 'remaining'), ctx.fresh('plist', 'stack_now'), ctx.fresh('pmap', 'delta_now')
+        R = expandmap(r.t)
+        ctx.assume(z3.And(PMp.is_('pcons', r.t), pmwf(r.t), ptl_wf(st.t), pmwf(dc.t), msuffix(R, self.M), expandmap(dc.t) == self.M, pushall(R, ex_stack(st.t)) == self.G))
+        self.tr.attrs['stack'] = st
+        env.set('delta', dc)
+        self.r, self.dc = r, dc
+        for ln, args in (('msuffix_head', [R, self.M]), ('msuffix_tail', [R, self.M]), ('expandmap_has', [dc.t, PMp.get('pcons', 'pkey', r.t)]),
+                         ('expandmap_get', [dc.t, PMp.get('pcons', 'pkey', r.t)])):
+            ctx.lemma_fact(ln, LIBX[ln].inst(*args))
+        k = PMp.get('pcons', 'pkey', r.t)
+        return (SV(k, 'int'), SV(PMp.get('pcons', 'pval', r.t), 'ppat'))
+
+    def after_iteration(self, interp, ctx, env, it, elem):
+        now = ex_stack(interp.plist_of(self.tr.attrs['stack']))
+        d2 = env.get('delta')
+        rest = expandmap(PMp.get('pcons', 'ptl', self.r.t))
+        k = PMp.get('pcons', 'pkey', self.r.t)
+        ctx.lemma_fact('mset_same', LIBX['mset_same'].inst(self.M, k, MMp.get('mcons', 'mval', expandmap(self.r.t))))
+        ctx.oblige('loop-inv:what remains to be pushed, pushed on the stack as it is now, is the final stack', pushall(rest, now) == self.G, kind='inv')
+        ctx.oblige('loop-inv:the remaining items are still a suffix of the map', msuffix(rest, self.M), kind='inv')
+        ctx.oblige('loop-inv:delta keeps its keys, order and (up to notation) values', z3.And(expandmap(interp.as_pmap(d2)) == self.M, pmwf(interp.as_pmap(d2))), kind='inv')
+        ctx.oblige('loop-inv:memory untouched, stack well-formed', z3.And(ex_mem(interp.plist_of(self.tr.attrs['memory'])) == self.mem0, ptl_wf(interp.plist_of(self.tr.attrs['stack']))), kind='inv')
+
+    def exit(self, interp, ctx, env, it):
+        st, df = ctx.fresh('plist', 'stack_after_plugs'), ctx.fresh('pmap', 'delta_after')
+        ctx.assume(z3.And(ptl_wf(st.t), ex_stack(st.t) == self.G, pmwf(df.t), expandmap(df.t) == self.M))
+        self.tr.attrs['stack'] = st
+        env.set('delta', df)
+        top = tl_taken(self.G, mlen(self.M))
+        for ln, args in (('pushall_views', [self.M, self.X0]), ('tl_allpat_eq', [top, ex_stack(pm_values(df.t))]), ('pm_values_pats', [df.t]), ('pm_values_allpat', [df.t]),
+                         ('mlen_nonneg', [self.M]), ('mlen_zero', [self.M])):
+            ctx.lemma_fact(ln, LIBX[ln].inst(*args))
+
+
 ALLOWED_SITES = ('BasicInterpreter.', 'Pattern.', 'Implies.', 'callee ')
 
 
@@ -218,6 +274,11 @@ def dsl_unit(repo, cs, rule, k=None):
             args = [good_thunk(repo, ctx, _p(ctx, 'left_conc'), 'left'), good_thunk(repo, ctx, _p(ctx, 'right_conc'), 'right')]
         elif rule == 'exists_generalization':
             args = [good_thunk(repo, ctx, _p(ctx, 'premise_conc'), 'premise'), interp.mk_pat('EVar', [ctx.input('int', 'var')])]
+        elif rule in ('dynamic_inst', 'instantiate') and k is None:
+            dm = ctx.input('pmap', 'delta')
+            ctx.assume(z3.And(pmwf(dm.t), mdistinct(expandmap(dm.t))))           # a python dict: distinct keys
+            args = [good_thunk(repo, ctx, _p(ctx, 'premise_conc'), 'premise'), dm]
+            interp.loop_contracts = {('ProofExp.dynamic_inst.<locals>.proved_exp', 0): ItemsLoop(tr, dm.t)}
         elif rule in ('dynamic_inst', 'instantiate'):
             d = {}
             for i in range(k):
